@@ -38,7 +38,7 @@ import ast
 import itertools
 
 from .. import sym, uflmodel, uflsem
-from ..flow import call_pred, every_exit_passes
+from ..flow import call_pred, every_exit_passes, validation_functions
 from ..lift import Interp, LiftRaise, Obj, Unsupported
 from ..model import AnalysisError, norm
 from ..report import Report
@@ -376,19 +376,25 @@ def check_formdata(ctx, rep):
     prog = ctx.prog
     fd = prog.get_class("ufl.algorithms.formdata.FormData")
     init = prog.lookup(fd, "__init__")
-    for chk in ("_check_elements", "_check_facet_geometry", "_check_form_arity"):
+    # the module's validation functions (found by shape: they return nothing and raise, or call the public arity checker)
+    checks = validation_functions(prog, "ufl.algorithms.formdata")
+    if len(checks) < 3 or not any(c for _, c in checks.values()):
+        raise AnalysisError(f"validation functions of ufl.algorithms.formdata: {sorted(checks)} (confirmed: element check, facet-geometry check, arity check)")
+    for chk, (cfi, is_arity) in checks.items():
         if every_exit_passes(init.node, call_pred(chk)):
             rep.ok("C01-checks", init, f"every normal exit of FormData.__init__ has called {chk}")
         else:
             rep.violation("C01-checks", init, chk, f"FormData.__init__ can return without having called {chk}")
-    # the arity check receives the form's own arguments and the complex_mode flag
-    for n in ast.walk(init.node):
-        if isinstance(n, ast.Call) and norm(n.func) == "_check_form_arity":
-            txt = [norm(a) for a in n.args] + [f"{k.arg}={norm(k.value)}" for k in n.keywords]
-            if any("original_form.arguments()" in t for t in txt) and any(t.endswith("complex_mode") for t in txt):
-                rep.ok("C01-checks", (init, n), "arity check runs on the original form's arguments with the caller's complex_mode")
-            else:
-                rep.violation("C01-checks", (init, n), norm(n), f"arity check called with {txt}")
+        if not is_arity:
+            continue
+        # the arity check receives the form's own arguments and the complex_mode flag
+        for n in ast.walk(init.node):
+            if isinstance(n, ast.Call) and norm(n.func) == chk:
+                txt = [norm(a) for a in n.args] + [f"{k.arg}={norm(k.value)}" for k in n.keywords]
+                if any("original_form.arguments()" in t for t in txt) and any(t.endswith("complex_mode") for t in txt):
+                    rep.ok("C01-checks", (init, n), "arity check runs on the original form's arguments with the caller's complex_mode")
+                else:
+                    rep.violation("C01-checks", (init, n), norm(n), f"arity check called with {txt}")
 
 
 def run(ctx) -> Report:
